@@ -274,6 +274,10 @@ func (l *WAL) Switch() (*WalFiles, error) {
 
 	walFiles := newWalFiles(l.maxRowTime, l.lock, l.logPath)
 	l.maxRowTime = math.MinInt64
+	// The serial replay reads one record from every partition in turn, starting at partition 0.
+	// That is the write order only if the oldest record that survives a flush sits in
+	// partition 0, so the round-robin counter restarts with every switch.
+	atomic.StoreUint64(&l.writeReq, 0)
 
 	for i := 0; i < l.partitionNum; i++ {
 		go func(lw *LogWriter) {
